@@ -124,63 +124,58 @@ def refill : Option Buf → Option Buf
 def emitSingle : Nat → Buf → List Row × Buf
   | 0, b => ([], b)
   | m + 1, b =>
-    let h := b.head
-    let (b', more) := b.advance 1
-    if more then
-      let (o, b'') := emitSingle m b'
-      (h :: o, b'')
-    else ([h], b')
+    if (b.advance 1).2 then
+      let rec_ := emitSingle m (b.advance 1).1
+      (b.head :: rec_.1, rec_.2)
+    else ([b.head], (b.advance 1).1)
 
-/-- merge.go:702-716; `m` = `len(rows) - n` (> 0) -/
+/-- merge.go:707-710: length of the run emitted by `emitRun` -/
+def emitRunLen (m : Nat) (r : Buf) (bound : Row) : Nat :=
+  if (r.win.take m).length > 1 then 1 + runLength ((r.win.take m).drop 1) bound (-1) else 1
+
+/-- merge.go:702-716; `m` = `len(rows) - n` (> 0): emitted rows, buffer, `hasNext` -/
 def emitRun (m : Nat) (r : Buf) (bound : Row) : List Row × Buf × Bool :=
-  let window := r.win.take m
-  let run := if window.length > 1 then 1 + runLength (window.drop 1) bound (-1) else 1
-  let (r', more) := r.advance run
-  (window.take run, r', more)
+  ((r.win.take m).take (emitRunLen m r bound), (r.advance (emitRunLen m r bound)).1,
+    (r.advance (emitRunLen m r bound)).2)
 
-/-- merge.go:639-693, `m` = `len(rows) - n` -/
+/-- merge.go:639-693, `m` = `len(rows) - n`; result: rows, r0, r1, prev, streak -/
 def M2.loop : Nat → Nat → Buf → Buf → Int → Nat → List Row × Buf × Buf × Int × Nat
   | 0, _, r0, r1, prev, streak => ([], r0, r1, prev, streak)
   | f + 1, m, r0, r1, prev, streak =>
     if m = 0 then ([], r0, r1, prev, streak) else
-    let c := cmp r0.head r1.head
-    if c < 0 then
+    if cmp r0.head r1.head < 0 then
       let streak := if prev < 0 then streak + 1 else 0
       if streak ≥ runDetectionStreak then
-        let (o, r0', more) := emitRun m r0 r1.head
-        if more then
-          let (o', res) := M2.loop f (m - o.length) r0' r1 (-1) streak
-          (o ++ o', res)
-        else (o, r0', r1, -1, streak)
+        let e := emitRun m r0 r1.head
+        if e.2.2 then
+          let rec_ := M2.loop f (m - e.1.length) e.2.1 r1 (-1) streak
+          (e.1 ++ rec_.1, rec_.2)
+        else (e.1, e.2.1, r1, -1, streak)
       else
-        let (r0', more) := r0.advance 1
-        if more then
-          let (o', res) := M2.loop f (m - 1) r0' r1 (-1) streak
-          (r0.head :: o', res)
-        else ([r0.head], r0', r1, -1, streak)
-    else if c > 0 then
+        if (r0.advance 1).2 then
+          let rec_ := M2.loop f (m - 1) (r0.advance 1).1 r1 (-1) streak
+          (r0.head :: rec_.1, rec_.2)
+        else ([r0.head], (r0.advance 1).1, r1, -1, streak)
+    else if cmp r0.head r1.head > 0 then
       let streak := if prev > 0 then streak + 1 else 0
       if streak ≥ runDetectionStreak then
-        let (o, r1', more) := emitRun m r1 r0.head
-        if more then
-          let (o', res) := M2.loop f (m - o.length) r0 r1' 1 streak
-          (o ++ o', res)
-        else (o, r0, r1', 1, streak)
+        let e := emitRun m r1 r0.head
+        if e.2.2 then
+          let rec_ := M2.loop f (m - e.1.length) r0 e.2.1 1 streak
+          (e.1 ++ rec_.1, rec_.2)
+        else (e.1, r0, e.2.1, 1, streak)
       else
-        let (r1', more) := r1.advance 1
-        if more then
-          let (o', res) := M2.loop f (m - 1) r0 r1' 1 streak
-          (r1.head :: o', res)
-        else ([r1.head], r0, r1', 1, streak)
+        if (r1.advance 1).2 then
+          let rec_ := M2.loop f (m - 1) r0 (r1.advance 1).1 1 streak
+          (r1.head :: rec_.1, rec_.2)
+        else ([r1.head], r0, (r1.advance 1).1, 1, streak)
     else
-      let (r0', more0) := r0.advance 1
-      if m - 1 = 0 then ([r0.head], r0', r1, 0, 0)
+      if m - 1 = 0 then ([r0.head], (r0.advance 1).1, r1, 0, 0)
       else
-        let (r1', more1) := r1.advance 1
-        if more0 && more1 then
-          let (o', res) := M2.loop f (m - 2) r0' r1' 0 0
-          (r0.head :: r1.head :: o', res)
-        else ([r0.head, r1.head], r0', r1', 0, 0)
+        if (r0.advance 1).2 && (r1.advance 1).2 then
+          let rec_ := M2.loop f (m - 2) (r0.advance 1).1 (r1.advance 1).1 0 0
+          (r0.head :: r1.head :: rec_.1, rec_.2)
+        else ([r0.head, r1.head], (r0.advance 1).1, (r1.advance 1).1, 0, 0)
 
 /-- merge.go:583-697 `ReadRows(rows)` with `len(rows) = m`; returns the rows and `true` for io.EOF -/
 def M2.readRows (st : M2) (m : Nat) : List Row × Bool × M2 :=
@@ -191,14 +186,12 @@ def M2.readRows (st : M2) (m : Nat) : List Row × Bool × M2 :=
   match r0, r1 with
   | none, none => ([], true, { st with r0 := none, r1 := none })
   | none, some b =>
-    let (o, b') := emitSingle m b
-    (o, false, { st with r0 := none, r1 := some b' })
+    ((emitSingle m b).1, false, { st with r0 := none, r1 := some (emitSingle m b).2 })
   | some a, none =>
-    let (o, a') := emitSingle m a
-    (o, false, { st with r0 := some a', r1 := none })
+    ((emitSingle m a).1, false, { st with r0 := some (emitSingle m a).2, r1 := none })
   | some a, some b =>
-    let (o, a', b', prev, streak) := M2.loop m m a b st.prev st.streak
-    (o, false, { st with r0 := some a', r1 := some b', prev := prev, streak := streak })
+    let l := M2.loop m m a b st.prev st.streak
+    (l.1, false, { st with r0 := some l.2.1, r1 := some l.2.2.1, prev := l.2.2.2.1, streak := l.2.2.2.2 })
 
 /-! ## mergedRowReader: tournament tree of losers as an array (merge.go:718-945) -/
 
